@@ -54,7 +54,7 @@ def run_for(pid, tier="quick", seed=0):
                 script.append((ssl.SSLWantWriteError(ssl.SSL_ERROR_WANT_WRITE, "w") if tls else BlockingIOError(errno.EAGAIN, "w")))
             else:
                 script.append(rnd.choice([0, 1, 2, 5, 1000]))
-        cs = FakeSock(list(script))
+        cs = FakeSock(send_script=list(script))
         ep = _mk(kind, cs)
         inp = dict(kind=kind, payloads=[p.hex() for p in payloads], script=[s if isinstance(s, int) else "block" for s in script[:12]])
         distinct.add(repr(inp))
@@ -73,7 +73,7 @@ def run_for(pid, tier="quick", seed=0):
                 ep.serviceSends()
             if cs.wire != sent and all(isinstance(s, int) for s in cs.script) is False:
                 pass
-            cs.script = [1000] * 5
+            cs.send_script = [1000] * 5
             for _ in range(5):
                 ep.serviceSends()
             if cs.wire != sent:
@@ -101,7 +101,7 @@ def run_for(pid, tier="quick", seed=0):
         for name in CONNFAULTS:
             e = getattr(errno, name)
             for op in ("send", "recv"):
-                cs3 = FakeSock([OSError(e, name)])
+                cs3 = FakeSock([OSError(e, name)], send_script=[OSError(e, name)])
                 ep3 = _mk(kind, cs3)
                 try:
                     if op == "send":
@@ -116,7 +116,7 @@ def run_for(pid, tier="quick", seed=0):
                     v("C10/fault-escapes-servicing", dict(kind=kind, errno=name, op=op), repr(ex))
         if tls:
             for op in ("send", "recv"):
-                cs4 = FakeSock([ssl.SSLEOFError(ssl.SSL_ERROR_EOF, "EOF")])
+                cs4 = FakeSock([ssl.SSLEOFError(ssl.SSL_ERROR_EOF, "EOF")], send_script=[ssl.SSLEOFError(ssl.SSL_ERROR_EOF, "EOF")])
                 ep4 = _mk(kind, cs4)
                 try:
                     if op == "send":
